@@ -180,7 +180,7 @@ func (c *c05) Run(cs core.Case) core.Result {
 	// spellings of the same path: the set is still the set of distinct files.
 	p2CreatePaths = nil
 	repeated := false
-	if p.Seed%7 == 3 && p.Kind != "obstacle" && p.Kind != "unreadable-input" && !strings.HasPrefix(p.Kind, "encoder:") {
+	if p.Seed%7 == 3 && p.Kind == "small" {
 		p2CreatePaths = func(dir string, paths []string) []string {
 			out := append([]string(nil), paths...)
 			for k := 0; k < 1+rng.Intn(2); k++ {
